@@ -36,6 +36,9 @@ func scenarios(tier string) []vlib.Scenario {
 	add(params{W: "W8-failure-four-streams", F: 0, P: 1})
 	add(params{W: "W9-opens-during-outage", F: 1, P: 0})
 	add(params{W: "W9-opens-during-outage", F: 1, P: 1})
+	// the link ends right behind an open or close response: the wire connection winds down while the response is processed
+	add(params{W: "W10-link-ends-behind-response", F: 1, P: 0})
+	add(params{W: "W10-link-ends-behind-response", F: 1, P: 1})
 	for _, w := range []string{"W1-open-close-beside-traffic", "W2-up-down-state-readers", "W3-failure-two-streams", "W4-calls-metadata-reconnect", "W5-reconnect-transport", "W6-multi", "W7-store"} {
 		f := 0
 		if strings.HasPrefix(w, "W3") || strings.HasPrefix(w, "W4") {
@@ -99,6 +102,23 @@ func (w *world) script() *sim.Script {
 			return sim.FaultCut
 		}
 		return sim.NoFault
+	}
+	if strings.HasPrefix(w.p.W, "W10") {
+		s.Fault = nil
+		s.AfterSend = func(b *sim.Broker, c *sim.BConn, m message.Message) {
+			if w.Phase != "traffic" {
+				return
+			}
+			switch m.(type) {
+			case *message.UpstreamOpenResponse, *message.UpstreamCloseResponse, *message.DownstreamOpenResponse, *message.DownstreamCloseResponse:
+				key := "tx:" + kit.MsgName(m)
+				w.rxn[key]++
+				if vsched.ChooseBudget(fmt.Sprintf("eof-behind@%s#%d", key, w.rxn[key]), 2, vsched.BudF) == 1 {
+					w.cuts++
+					b.CloseConn(c) // delivered, then the link ends
+				}
+			}
+		}
 	}
 	return s
 }
@@ -228,6 +248,16 @@ func (w *world) connWorkload() {
 		})
 		vsched.Sleep(90*time.Millisecond, "h:cut")
 		w.B.Cut(w.B.Live())
+	case strings.HasPrefix(w.p.W, "W10"):
+		down, _ := w.OpenDown(ctx, "d0", kit.Filter("src"), iscp.WithDownstreamQoS(message.QoSReliable))
+		spawn("h:openup", func() {
+			w.OpenUp(ctx, "u10", iscp.WithUpstreamFlushPolicyImmediately(), iscp.WithUpstreamQoS(message.QoSReliable), iscp.WithUpstreamCloseTimeout(2*time.Second))
+		})
+		spawn("h:closeup", func() { up.U.Close(ctx) })
+		spawn("h:opendown", func() { w.OpenDown(ctx, "d10", kit.Filter("src10"), iscp.WithDownstreamQoS(message.QoSReliable)) })
+		if down != nil {
+			spawn("h:closedown", func() { down.D.Close(ctx) })
+		}
 	case strings.HasPrefix(w.p.W, "W9"):
 		// streams are opened while the connection is down; a second failure (budget F) may hit the recovery
 		w.B.Cut(w.B.Live())
